@@ -34,7 +34,9 @@ inline void zygote_loop(int rfd, int wfd) {
       if (from_text(txt, h, &err)) {
         Ctx cx; cx.enabled = 0; cx.want_trace = true;
         RunResult rr = run_history(h, cx);
-        for (auto& t : rr.traces[0]) out.push_back(t.h);
+        out.push_back(cx.features);
+        out.push_back(rr.traces.size());
+        for (auto& tr : rr.traces) { out.push_back(tr.size()); for (auto& t : tr) out.push_back(t.h); }
       }
       uint32_t n = (uint32_t)out.size(), tag = 0x54524143;
       write_all(wfd, &tag, 4); write_all(wfd, &n, 4);
@@ -57,22 +59,27 @@ inline void init_zygote() {
   zy_to = a[1]; zy_from = b[0]; zy_pid = p;
 }
 
-// returns false if the solo child died; trace in out
-inline bool solo_trace(const Script& s, std::vector<uint64_t>& out, uint32_t* status) {
-  History h; h.scripts.push_back(s);
+// runs a history in a pristine forked process; false if the child died or sent nothing
+inline bool pristine_run(const History& h, std::vector<std::vector<uint64_t>>& traces, uint64_t* features, uint32_t* status) {
   std::string txt = to_text(h);
   uint32_t len = (uint32_t)txt.size();
-  out.clear(); *status = 0;
+  traces.clear(); *status = 0; *features = 0;
   if (zy_to < 0) return false;
   if (!write_all(zy_to, &len, 4) || !write_all(zy_to, txt.data(), len)) return false;
   bool got = false;
+  std::vector<uint64_t> raw;
   for (;;) {
     uint32_t tag, v;
     if (!read_all(zy_from, &tag, 4) || !read_all(zy_from, &v, 4)) return false;
-    if (tag == 0x54524143) { out.resize(v); if (v && !read_all(zy_from, out.data(), v * 8)) return false; got = true; }
-    else if (tag == 0x454E4421) { *status = v; return got; }
+    if (tag == 0x54524143) { raw.resize(v); if (v && !read_all(zy_from, raw.data(), v * 8)) return false; got = v >= 2; }
+    else if (tag == 0x454E4421) { *status = v; break; }
     else return false;
   }
+  if (!got || *status != 0) return false;
+  *features = raw[0];
+  size_t ns = (size_t)raw[1], pos = 2;
+  for (size_t i = 0; i < ns && pos < raw.size(); i++) { size_t n = (size_t)raw[pos++]; traces.emplace_back(raw.begin() + pos, raw.begin() + std::min(raw.size(), pos + n)); pos += n; }
+  return traces.size() == ns;
 }
 
 // ---------------------------------------------------------------------------------------------
@@ -129,6 +136,17 @@ inline History gen_code_case(const PropSpec& ps, Chooser& ch) {
     if (c.k + c.r > ps.go.max_n_ldpc) c.r = std::max<uint32_t>(c.N1, ps.go.max_n_ldpc - c.k);
   }
   c.payload = PAY_IDENTITY;
+  // now and then a block of tens of thousands of symbols: deviations of the PRNG scaling of the order of
+  // 2^-31 per draw only show in matrices built from ~10^5 draws (one-byte symbols keep this cheap)
+  bool big = ch.coin(1, 24);
+  if (big) {
+    uint32_t kmax = ps.go.max_k_ldpc >= 3000 ? 40000 : 24000;
+    c.k = ch.range(4000, kmax);
+    c.N1 = ch.range(3, 10);
+    c.r = std::max<uint32_t>(c.N1, ch.pick<uint32_t>({c.k / 2, c.k / 4, c.k / 9, 2000}));
+    if (c.k + c.r > 50000) c.r = 50000 - c.k;
+    c.payload = PAY_RANDOM; c.L = 1;
+  }
   Script e; e.cfg = c; e.role = ch.coin(1, 5) ? ROLE_BOTH : ROLE_ENC;
   { Step sp; sp.op = OP_SETPARAMS; e.steps.push_back(sp); }
   for (uint32_t i = 0; i < c.r; i++) { Step b; b.op = OP_BUILD; b.esi = c.k + i; e.steps.push_back(b); }
@@ -358,27 +376,45 @@ inline CaseResult run_core(const History& h, const PropSpec& ps, Stats* st, bool
       else cx.features |= F_REJECTED;
     }
   }
-  if (!cx.stop) cr.rr = run_history(h, cx, inj.empty() ? nullptr : &inj);
+  if (ps.kind == 3) {
+    // C12: the interleaved run AND every solo run happen in pristine forked processes, so a case is a pure
+    // function of its history (static library state left by earlier cases cannot leak into it)
+    cr.rr.traces.resize(h.scripts.size()); cr.rr.last_null.assign(h.scripts.size(), -1); cr.rr.cfg_ok.assign(h.scripts.size(), 0);
+    std::vector<std::vector<uint64_t>> multi; uint64_t feat = 0; uint32_t status = 0;
+    bool ok = pristine_run(h, multi, &feat, &status);
+    cx.features |= feat;
+    std::vector<std::vector<std::vector<uint64_t>>> solo(h.scripts.size());
+    std::vector<char> solo_ok(h.scripts.size(), 0);
+    for (size_t i = 0; i < h.scripts.size(); i++) {
+      History one; one.scripts.push_back(h.scripts[i]);
+      uint64_t f2; uint32_t st2;
+      solo_ok[i] = pristine_run(one, solo[i], &f2, &st2) && solo[i].size() == 1;
+      if (!solo_ok[i]) cx.counters["solo_run_died"]++;
+    }
+    if (!ok) {
+      cx.counters["interleaved_run_died"]++;
+      bool all_solo = true; for (char c : solo_ok) if (!c) all_solo = false;
+      if (all_solo) cx.fail(O_INDEP, "interleaved_run_dies_solo_runs_do_not", "the interleaved execution dies (wait status " + std::to_string(status) + ") although every script runs to the end alone");
+    } else {
+      for (size_t i = 0; i < h.scripts.size() && i < multi.size(); i++) {
+        if (!solo_ok[i]) continue;
+        const auto& t = multi[i]; const auto& so = solo[i][0];
+        size_t m = std::min(t.size(), so.size()), d = 0;
+        while (d < m && t[d] == so[d]) d++;
+        if (d < m || t.size() != so.size()) {
+          // observation 0 is create; observation j >= 1 is step j-1; the last one is release
+          std::string what = d == 0 ? "create" : (d - 1 < h.scripts[i].steps.size() ? std::string(op_names[h.scripts[i].steps[d - 1].op]) + " (step " + std::to_string(d - 1) + ")" : "release");
+          cx.fail(O_INDEP, "trace_differs_from_solo_run", "session " + std::to_string(i) + ": observation #" + std::to_string(d) + " around " + what + " differs from the same script run alone in a pristine process");
+          break;
+        }
+        cx.counters["solo_traces_compared"]++;
+      }
+    }
+  } else if (!cx.stop) cr.rr = run_history(h, cx, inj.empty() ? nullptr : &inj);
   else { cr.rr.traces.resize(h.scripts.size()); cr.rr.last_null.assign(h.scripts.size(), -1); cr.rr.cfg_ok.assign(h.scripts.size(), 0); }
   // post-run cross-session checks
   if (ps.kind == 5 && h.scripts.size() == 2 && cr.rr.cfg_ok[0] && cr.rr.cfg_ok[1] && cr.rr.last_null[0] != cr.rr.last_null[1])
     cx.fail(O_LASTNULL, "encoder_decoder_disagree", "encoder and decoder sessions with equal parameters report different IS_LAST_SYMBOL_NULL");
-  if (ps.kind == 3 && !cx.stop) {
-    for (size_t i = 0; i < h.scripts.size(); i++) {
-      std::vector<uint64_t> solo; uint32_t status = 0;
-      bool ok = solo_trace(h.scripts[i], solo, &status);
-      if (!ok) { cx.counters["solo_run_died"]++; continue; }
-      const auto& t = cr.rr.traces[i];
-      size_t m = std::min(t.size(), solo.size());
-      size_t d = 0; while (d < m && t[d].h == solo[d]) d++;
-      if (d < m || t.size() != solo.size()) {
-        cx.fail(O_INDEP, "trace_differs_from_solo_run", "session " + std::to_string(i) + ": observation #" + std::to_string(d) + " (" + (d < t.size() ? t[d].brief : std::string("end")) +
-                                                            ") differs from the same script run alone in a pristine process");
-        break;
-      }
-      cx.counters["solo_traces_compared"]++;
-    }
-  }
   cr.features = cx.features; cr.notes = cx.notes;
   if (!cx.fails.empty()) { cr.failed = true; cr.first = cx.fails[0]; }
   if (st) {
